@@ -26,8 +26,23 @@ type propSpec struct {
 
 var props = map[string]*propSpec{}
 
+// explainMore: clauses added after the explanation texts in the props_*.go files were written (seed round 9).
+var explainMore = map[string]string{
+	"C01": " Also decided (seed round 9): the address of every item the array codec writes depends on every loop the write sits in (WA-IDX).",
+	"C02": " Also decided (seed round 9): WA-IDX.",
+	"C03": " Also decided (seed round 9): the bank's slot discipline, including that no pointer into the growable arena table is kept (AL-BUMP, AL-CLR, AL-CLOSE, AL-STALE).",
+	"C05": " Also decided (seed round 9): the registries are read by exact-key lookup only, so a registered builder is never handed another type (REG-EXACT).",
+	"C09": " Also decided (seed round 9): the threshold is the constructor's block-size parameter, stored unchanged (ENC-SIZE).",
+	"C11": " Also decided (seed round 9): a bank handed out is no longer the reader's and only Close pools a bank (OD-BANK, AL-OWNER).",
+	"C13": " Also decided (seed round 9): WA-WR and WA-SPEC-W for all 27 codec types, WA-IDX, and floor division of time-derived counts (TS-FLOOR).",
+	"C14": " Also decided (seed round 9): the JSON tags carry no option that changes name matching (JS-TAG-OPT).",
+	"C15": " Also decided (seed round 9): REG-EXACT for the schema registry.",
+	"C19": " Also decided (seed round 9): Read refuses a decoded integer only on a comparison with MaxInt64/mult or MinInt64/mult, anything else being undecided (TS-TOTAL); quotients of time-derived counts are floor-corrected (TS-FLOOR).",
+	"C20": " Also decided (seed round 9): REG-EXACT; RegisterCodecs registers unconditionally on every call (REG-ALWAYS).",
+}
+
 func register(id, explanation string, run func(c *Ctx)) {
-	props[id] = &propSpec{ID: id, Explanation: explanation, Run: run}
+	props[id] = &propSpec{ID: id, Explanation: explanation + explainMore[id], Run: run}
 }
 
 func main() {
